@@ -9,11 +9,12 @@ from pathlib import Path
 from . import common, storelib as S
 
 
-def write_dataset(d: Path, evs, fname="data.json", ty_name=None) -> Path:
+def write_dataset(d: Path, evs, fname="data.json", ty_name=None, wf_name=None) -> Path:
     data = d / "data"
     data.mkdir(exist_ok=True)
     ty_name = ty_name or S.s_ty
-    spans = [dict(job_name=S.s_name(e["name"]), job_id=S.s_job(e["job"]), event_type=ty_name(e["ty"]), event_id=S.s_id(e["id"]),
+    wf_name = wf_name or S.s_name
+    spans = [dict(job_name=wf_name(e["name"]), job_id=S.s_job(e["job"]), event_type=ty_name(e["ty"]), event_id=S.s_id(e["id"]),
                   start_timestamp=e["st"], end_timestamp=e["en"], application_name=S.s_app(e["app"]),
                   parent_event_id=("" if e["par"] == 0 else S.s_id(e["par"])) if e["par"] is not None else None) for e in evs]
     (data / fname).write_text(json.dumps({"spans": spans}))
